@@ -8,6 +8,8 @@
    fixes/exec-tp-overflow-register.diff; the tp theorems hold for both values. *)
 Require Import List Bool Arith Lia.
 Require Import IW.CC.Lts IW.CC.Lts_proofs IW.CC.Stw IW.CC.Stw_proofs IW.CC.Tp IW.CC.Tp_proofs.
+Require Import IW.CC.Fair IW.CC.Stw_live IW.CC.Stw_live_proofs IW.CC.Tp_live IW.CC.Tp_live_proofs IW.CC.Tp_reg_proofs.
+Require Import IW.CC.Cover IW.CC.Cover_proofs.
 Import ListNotations.
 
 (* ---------------- single-thread worker ---------------- *)
@@ -261,3 +263,275 @@ Proof.
   destruct (run Tp.st (Tp.step ex_ovf) (Tp.init ex_ovf) ex_ovf_trace) as [s|] eqn:E; [|vm_compute in E; discriminate].
   exists s. split; [exists ex_ovf_trace; exact E|]. vm_compute in E. inversion E; subst. vm_compute. repeat split.
 Qed.
+
+(* ======================================================================================================================
+   Deepening round: liveness over fair infinite executions (CC/Fair.v), the registry of iwtp, the queries, iwstw_shutdown
+   called from a task, and "the model has no dead transition".
+
+   An execution x is an infinite sequence of states with optional labels (None = nothing happens); [Fair.fair] = whenever a
+   thread has an enabled OBLIGATORY transition, that thread performs a transition at that or a later position.  Obligatory =
+   everything except starting a new API call and waking up from a condition wait that nobody has signalled
+   (Stw_live.must / Tp_live.must): spurious wake-ups are possible at any time but never promised; a signalled waiter, a
+   thread that finds the mutex free, a running task body, a join of a finished thread are eventually scheduled.
+   ====================================================================================================================== *)
+
+(* ---------------- single-thread worker: liveness ---------------- *)
+
+(* every task linked into the queue is eventually run to the end, or dropped by iwstw_shutdown(false) / iwstw_schedule_only.
+   Hypotheses besides fairness: current code (recheck; self-thread guard releases the mutex), and task bodies are opaque (they
+   do not keep calling iwstw_shutdown on their own executor) *)
+Theorem C20_stw_linked_eventually_settled : forall c (x : Stw_live.sexec),
+  Stw_live.is_sexec c x -> Stw_live.sfair c x -> Stw_proofs.R c (st_at Stw.st x 0) -> Stw.selfunlock c = true ->
+  (forall i e, lab Stw.st x i = Some (Stw.W, e) -> Stw_live.is_call e = false) -> Stw.recheck c = true ->
+  forall k i, In k (Stw.enq (st_at Stw.st x i)) ->
+  exists j, i <= j /\ (In k (Stw.done (st_at Stw.st x j)) \/ In k (Stw.disc (st_at Stw.st x j)) \/ In k (Stw.repl (st_at Stw.st x j))).
+Proof. exact Stw_live_proofs.linked_eventually_settled. Qed.
+Print Assumptions C20_stw_linked_eventually_settled.
+
+Theorem C20_stw_accepted_eventually_fair : forall c (x : Stw_live.sexec),
+  Stw_live.is_sexec c x -> Stw_live.sfair c x -> Stw_proofs.R c (st_at Stw.st x 0) -> Stw.selfunlock c = true ->
+  (forall i e, lab Stw.st x i = Some (Stw.W, e) -> Stw_live.is_call e = false) -> Stw.recheck c = true ->
+  forall k i, In k (Stw.acc (st_at Stw.st x i)) ->
+  exists j, i <= j /\ (In k (Stw.done (st_at Stw.st x j)) \/ In k (Stw.disc (st_at Stw.st x j)) \/ In k (Stw.repl (st_at Stw.st x j))).
+Proof. exact Stw_live_proofs.accepted_eventually_fair. Qed.
+Print Assumptions C20_stw_accepted_eventually_fair.
+
+(* after the shutdown flag was set the worker drains the queue and its thread terminates ... *)
+Theorem C20_stw_worker_terminates : forall c (x : Stw_live.sexec),
+  Stw_live.is_sexec c x -> Stw_live.sfair c x -> Stw_proofs.R c (st_at Stw.st x 0) -> Stw.selfunlock c = true ->
+  (forall i e, lab Stw.st x i = Some (Stw.W, e) -> Stw_live.is_call e = false) -> Stw.recheck c = true ->
+  forall i, Stw.shut (st_at Stw.st x i) = true -> exists j, i <= j /\ Stw.wpc (st_at Stw.st x j) = Stw.WDead.
+Proof. exact Stw_live_proofs.worker_terminates. Qed.
+Print Assumptions C20_stw_worker_terminates.
+
+(* ... and iwstw_shutdown returns (liveness half of shutdown_wait_drains: C20_stw_shutdown_wait_drains says what holds then) *)
+Theorem C20_stw_shutdown_returns : forall c (x : Stw_live.sexec),
+  Stw_live.is_sexec c x -> Stw_live.sfair c x -> Stw_proofs.R c (st_at Stw.st x 0) -> Stw.selfunlock c = true ->
+  (forall i e, lab Stw.st x i = Some (Stw.W, e) -> Stw_live.is_call e = false) -> Stw.recheck c = true ->
+  forall t i, t <> Stw.W -> Stw.fn (Stw.cl (st_at Stw.st x i) t) = 3 ->
+  exists j, i <= j /\ Stw.cp (Stw.cl (st_at Stw.st x j) t) = Stw.Idle.
+Proof. exact Stw_live_proofs.shutdown_returns. Qed.
+Print Assumptions C20_stw_shutdown_returns.
+
+(* no call deadlocks: every API call returns or parks on cond_queue (iwstw_schedule on a full blocking queue; that wait ends when
+   the worker has made room - C20_stw_full_queue_rejects_or_blocks - or at shutdown) *)
+Theorem C20_stw_call_returns_or_parks : forall c (x : Stw_live.sexec),
+  Stw_live.is_sexec c x -> Stw_live.sfair c x -> Stw_proofs.R c (st_at Stw.st x 0) -> Stw.selfunlock c = true ->
+  (forall i e, lab Stw.st x i = Some (Stw.W, e) -> Stw_live.is_call e = false) -> Stw.recheck c = true ->
+  forall t i, t <> Stw.W ->
+  exists j, i <= j /\ (Stw.cp (Stw.cl (st_at Stw.st x j) t) = Stw.Idle \/ Stw.cp (Stw.cl (st_at Stw.st x j) t) = Stw.CWait).
+Proof. exact Stw_live_proofs.call_returns_or_parks. Qed.
+Print Assumptions C20_stw_call_returns_or_parks.
+
+(* the fairness hypothesis cannot be dropped: an execution of the model in which an accepted task is never run *)
+Theorem C20_stw_accepted_eventually_refuted_without_fairness : exists x : Stw_live.sexec,
+  Stw_live.is_sexec Stw_live_proofs.live_cfg x /\ Stw_proofs.R Stw_live_proofs.live_cfg (st_at Stw.st x 0) /\
+  Stw.recheck Stw_live_proofs.live_cfg = true /\ In 0 (Stw.acc (st_at Stw.st x 6)) /\
+  forall j, 6 <= j -> Stw.queue (st_at Stw.st x j) = [0] /\ ~ In 0 (Stw.done (st_at Stw.st x j)) /\
+                      ~ In 0 (Stw.disc (st_at Stw.st x j)) /\ ~ In 0 (Stw.repl (st_at Stw.st x j)).
+Proof. exact Stw_live_proofs.accepted_eventually_refuted_without_fairness. Qed.
+Print Assumptions C20_stw_accepted_eventually_refuted_without_fairness.
+
+(* GENUINE DEFECT of the code as found (selfunlock = false): iwstw_shutdown called from a task returns IW_ERROR_ASSERTION with
+   stw->mtx still locked; after the task has returned the worker waits for its own mutex and NO continuation of the run
+   releases it: the iwstw_schedule call of thread 10 never returns ("no call deadlocks" is false).  The trace is the real event
+   trace of the directed scenario stw-shutdown-from-task.  Fix: fixes/exec-stw-self-shutdown-unlock.diff *)
+Theorem C20_stw_self_shutdown_deadlock_refuted : exists s,
+  run Stw.st (Stw.step Stw_live_proofs.selfsd_cfg) Stw.init Stw_live_proofs.selfsd_trace = Some s /\
+  Stw.recheck Stw_live_proofs.selfsd_cfg = true /\ In 0 (Stw.acc s) /\ Stw_live_proofs.self_deadlocked s /\
+  forall tr s', run Stw.st (Stw.step Stw_live_proofs.selfsd_cfg) s tr = Some s' -> Stw_live_proofs.self_deadlocked s'.
+Proof. exact Stw_live_proofs.self_shutdown_deadlock. Qed.
+Print Assumptions C20_stw_self_shutdown_deadlock_refuted.
+
+(* the queries and iwstw_schedule_empty_only *)
+Theorem C20_stw_queue_size_exact : forall c s t s', Stw_proofs.R c s -> Stw.step c s t EUnlock = Some s' -> t <> Stw.W ->
+  Stw.cp (Stw.cl s t) = Stw.Locked -> Stw.fn (Stw.cl s t) = 4 ->
+  Stw.cp (Stw.cl s' t) = Stw.Ret (length (Stw.queue s)) false /\ Stw.queue s' = Stw.queue s.
+Proof. exact Stw_live_proofs.queue_size_exact. Qed.
+Print Assumptions C20_stw_queue_size_exact.
+
+Theorem C20_stw_empty_only_step : forall c s t e s', Stw.step c s t e = Some s' -> t <> Stw.W ->
+  Stw.cp (Stw.cl s t) = Stw.Locked -> Stw.fn (Stw.cl s t) = 2 -> Stw.shut s = false ->
+  (Stw.queue s = [] -> e = EEnq (Stw.tk (Stw.cl s t)) /\ Stw.queue s' = [Stw.tk (Stw.cl s t)] /\
+                       Stw.enq s' = Stw.enq s ++ [Stw.tk (Stw.cl s t)] /\ Stw.cp (Stw.cl s' t) = Stw.Enq) /\
+  (Stw.queue s <> [] -> e = EUnlock /\ Stw.queue s' = Stw.queue s /\ Stw.enq s' = Stw.enq s /\
+                        Stw.cp (Stw.cl s' t) = Stw.Ret RC_OK false).
+Proof. exact Stw_live_proofs.empty_only_step. Qed.
+Print Assumptions C20_stw_empty_only_step.
+
+(* ---------------- thread pool: registry ---------------- *)
+
+(* tp->threads is exactly the list of the threads started with _worker_fn, in creation order, minus the overflow threads that
+   have unregistered + detached themselves (those are past the loop); the threads of iwtp_start stay at the front *)
+Theorem C20_tp_registry_exact : forall c s, Tp_proofs.R c s -> Tp.reg c = true ->
+  Tp.regs s = filter (Tp_reg_proofs.live s) (Tp.workers s) /\ NoDup (Tp.regs s) /\
+  (forall t, In t (Tp.regs s) <-> In t (Tp.workers s) /\ Tp.det (Tp.th s t) = false) /\
+  (forall t, Tp.det (Tp.th s t) = true ->
+     In t (Tp.workers s) /\ Tp.nthreads c <= t /\ (Tp.pc (Tp.th s t) = Tp.TExit \/ Tp.pc (Tp.th s t) = Tp.TDead)) /\
+  (forall t, Tp_proofs.loop_pc (Tp.pc (Tp.th s t)) = true -> In t (Tp.regs s)) /\
+  (exists rest, Tp.regs s = seq 0 (Tp.nthreads c) ++ rest /\ forall r, In r rest -> Tp.nthreads c <= r).
+Proof. exact Tp_reg_proofs.registry_exact. Qed.
+Print Assumptions C20_tp_registry_exact.
+
+(* the index cached by _worker_fn may be stale, but `idx >= tp->num_threads` still means "overflow thread" *)
+Theorem C20_tp_cached_index_classifies : forall c s t, Tp_proofs.R c s -> Tp_proofs.loop_pc (Tp.pc (Tp.th s t)) = true ->
+  (Tp.nthreads c <=? Tp.ix (Tp.th s t)) = (Tp.nthreads c <=? t) /\ (t < Tp.nthreads c -> Tp.ix (Tp.th s t) = t).
+Proof. exact Tp_reg_proofs.cached_index_classifies. Qed.
+Print Assumptions C20_tp_cached_index_classifies.
+
+(* removal through the cached index (the seeded regression) is refuted: reachable state where it would unregister the live
+   thread 32 and keep the leaving thread 31 *)
+Theorem C20_tp_cached_index_removal_refuted : exists s,
+  run Tp.st (Tp.step Tp_reg_proofs.stale_cfg) (Tp.init Tp_reg_proofs.stale_cfg) Tp_reg_proofs.stale_trace = Some s /\
+  Tp.reg Tp_reg_proofs.stale_cfg = true /\
+  Tp.pc (Tp.th s 31) = Tp.TL2 /\ Tp.owner s = Some 31 /\ Tp.shut s = false /\
+  Tp.nthreads Tp_reg_proofs.stale_cfg <= Tp.ix (Tp.th s 31) /\
+  Tp.regs s = [0; 31; 32] /\ Tp.ix (Tp.th s 31) = 2 /\ find_first 31 (Tp.regs s) = Some 1 /\
+  nth_error (Tp.regs s) (Tp.ix (Tp.th s 31)) = Some 32 /\ Tp.pc (Tp.th s 32) = Tp.TStart /\ Tp.det (Tp.th s 32) = false /\
+  remove_first 31 (Tp.regs s) = [0; 32] /\ Tp_reg_proofs.remove_at (Tp.ix (Tp.th s 31)) (Tp.regs s) = [0; 31].
+Proof. exact Tp_reg_proofs.cached_index_removal_refuted. Qed.
+Print Assumptions C20_tp_cached_index_removal_refuted.
+
+(* iwtp_shutdown joins exactly the registry ... *)
+Theorem C20_tp_shutdown_joins_registry : forall c s t s', Tp.step c s t (EBcast 0) = Some s' -> Tp.pc (Tp.th s t) = Tp.Locked ->
+  Tp.fn (Tp.th s t) = 3 /\ Tp.shut s = false /\ Tp.shut s' = true /\ Tp.pc (Tp.th s' t) = Tp.QB /\
+  Tp.jl (Tp.th s' t) = Tp.regs s /\ Tp.regs s' = Tp.regs s.
+Proof. exact Tp_reg_proofs.shutdown_joins_registry. Qed.
+Print Assumptions C20_tp_shutdown_joins_registry.
+
+(* ... so that at free(tp) every thread ever started has finished, or has detached itself and left the loop ... *)
+Theorem C20_tp_shutdown_joined_all : forall c s t, Tp_proofs.R c s -> Tp.chk c = true -> Tp.reg c = true ->
+  Tp.pc (Tp.th s t) = Tp.QFreed -> forall w, In w (Tp.workers s) ->
+  (Tp.det (Tp.th s w) = false -> Tp.pc (Tp.th s w) = Tp.TDead) /\
+  (Tp.det (Tp.th s w) = true -> Tp.pc (Tp.th s w) = Tp.TExit \/ Tp.pc (Tp.th s w) = Tp.TDead).
+Proof. exact Tp_reg_proofs.shutdown_joined_all. Qed.
+Print Assumptions C20_tp_shutdown_joined_all.
+
+(* ... and after free(tp) no thread of the pool is, or can get, inside the worker loop *)
+Theorem C20_tp_freed_no_worker_alive : forall c s, Tp_proofs.R c s -> Tp.chk c = true -> Tp.reg c = true -> Tp.freed s = true ->
+  forall w, In w (Tp.workers s) -> Tp.pc (Tp.th s w) = Tp.TExit \/ Tp.pc (Tp.th s w) = Tp.TDead.
+Proof. exact Tp_reg_proofs.freed_no_worker_alive. Qed.
+Print Assumptions C20_tp_freed_no_worker_alive.
+
+(* the code before b174074 (reg = false) does not have it: the unregistered overflow thread takes the mutex after free(tp) *)
+Theorem C20_tp_freed_no_worker_alive_refuted_without_register : exists s,
+  run Tp.st (Tp.step Tp_reg_proofs.unreg_cfg) (Tp.init Tp_reg_proofs.unreg_cfg) Tp_reg_proofs.unreg_trace = Some s /\
+  Tp.chk Tp_reg_proofs.unreg_cfg = true /\ Tp.reg Tp_reg_proofs.unreg_cfg = false /\
+  Tp.freed s = true /\ In 30 (Tp.workers s) /\ ~ In 30 (Tp.regs s) /\ Tp.pc (Tp.th s 30) = Tp.TReg /\
+  Tp.owner s = Some 30 /\ Tp.uaf s = true.
+Proof. exact Tp_reg_proofs.freed_no_worker_alive_refuted_without_register. Qed.
+Print Assumptions C20_tp_freed_no_worker_alive_refuted_without_register.
+
+(* ---------------- thread pool: queries, rejection ---------------- *)
+Theorem C20_tp_queue_size_exact : forall c s t s', Tp_proofs.R c s -> Tp.step c s t EUnlock = Some s' ->
+  Tp.pc (Tp.th s t) = Tp.Locked -> Tp.fn (Tp.th s t) = 4 ->
+  Tp.pc (Tp.th s' t) = Tp.Ret (length (Tp.queue s)) false /\ Tp.queue s' = Tp.queue s.
+Proof. exact Tp_reg_proofs.queue_size_exact. Qed.
+Print Assumptions C20_tp_queue_size_exact.
+
+(* IW_ERROR_OVERFLOW only when the queue really holds queue_limit tasks; a call that finds room is accepted (the seeded change
+   C20/r6 - counter incremented before the test and not rolled back - breaks exactly this) *)
+Theorem C20_tp_overflow_only_when_full : forall c s t e s', Tp_proofs.R c s -> Tp.step c s t e = Some s' ->
+  Tp.pc (Tp.th s t) = Tp.Locked -> Tp.fn (Tp.th s t) = 0 -> Tp.pc (Tp.th s' t) = Tp.Ret RC_OVERFLOW false ->
+  Tp.limit c > 0 /\ length (Tp.queue s) >= Tp.limit c /\ Tp.enq s' = Tp.enq s /\ Tp.queue s' = Tp.queue s.
+Proof. exact Tp_reg_proofs.overflow_only_when_full. Qed.
+Print Assumptions C20_tp_overflow_only_when_full.
+
+Theorem C20_tp_accepts_when_not_full : forall c s t, Tp_proofs.R c s -> Tp.pc (Tp.th s t) = Tp.Locked -> Tp.fn (Tp.th s t) = 0 ->
+  Tp.owner s = Some t -> Tp.shut s = false -> (Tp.limit c = 0 \/ length (Tp.queue s) < Tp.limit c) ->
+  Tp.step c s t (EEnq (Tp.tk (Tp.th s t))) <> None.
+Proof. exact Tp_reg_proofs.accepts_when_not_full. Qed.
+Print Assumptions C20_tp_accepts_when_not_full.
+
+(* iwtp_threads_busy_num = number of threads between ++num_threads_busy and --num_threads_busy <= registered threads <=
+   num_threads * (1 + overflow_threads_factor) *)
+Theorem C20_tp_busy_num_exact : forall c s t s', Tp_proofs.R c s -> Tp.step c s t EUnlock = Some s' ->
+  Tp.pc (Tp.th s t) = Tp.Locked -> Tp.fn (Tp.th s t) = 5 ->
+  Tp.pc (Tp.th s' t) = Tp.Ret (Tp.busy s) false /\
+  Tp.busy s = length (filter (fun u => Tp_reg_proofs.busy_pc (Tp.pc (Tp.th s u))) (Tp.workers s)) /\
+  Tp.busy s <= length (Tp.regs s) /\ length (Tp.regs s) <= Tp.nthreads c * (1 + Tp.ovf c).
+Proof. exact Tp_reg_proofs.busy_num_exact. Qed.
+Print Assumptions C20_tp_busy_num_exact.
+
+(* ---------------- thread pool: liveness ---------------- *)
+Theorem C20_tp_accepted_eventually_fair : forall c (x : Tp_live.texec),
+  Tp_live.is_texec c x -> Tp_live.tfair c x -> Tp_proofs.R c (st_at Tp.st x 0) -> Tp.nthreads c > 0 -> Tp.chk c = true ->
+  forall k i, In k (Tp.acc (st_at Tp.st x i)) ->
+  exists j, i <= j /\ (In k (Tp.done (st_at Tp.st x j)) \/ In k (Tp.disc (st_at Tp.st x j))).
+Proof. exact Tp_live_proofs.accepted_eventually_fair. Qed.
+Print Assumptions C20_tp_accepted_eventually_fair.
+
+Theorem C20_tp_worker_terminates : forall c (x : Tp_live.texec),
+  Tp_live.is_texec c x -> Tp_live.tfair c x -> Tp_proofs.R c (st_at Tp.st x 0) -> Tp.nthreads c > 0 -> Tp.chk c = true ->
+  forall w i, Tp.shut (st_at Tp.st x i) = true -> Tp_proofs.worker_pc (Tp.pc (Tp.th (st_at Tp.st x i) w)) = true ->
+  exists j, i <= j /\ Tp.pc (Tp.th (st_at Tp.st x j) w) = Tp.TDead.
+Proof. exact Tp_live_proofs.worker_terminates. Qed.
+Print Assumptions C20_tp_worker_terminates.
+
+(* no call deadlocks: every call of iwtp_schedule / iwtp_shutdown / iwtp_queue_size / iwtp_threads_busy_num returns (for
+   iwtp_shutdown this is the liveness half of C20_tp_shutdown_wait_drains) *)
+Theorem C20_tp_call_returns : forall c (x : Tp_live.texec),
+  Tp_live.is_texec c x -> Tp_live.tfair c x -> Tp_proofs.R c (st_at Tp.st x 0) -> Tp.nthreads c > 0 -> Tp.chk c = true ->
+  forall t i, Tp_proofs.worker_pc (Tp.pc (Tp.th (st_at Tp.st x i) t)) = false ->
+  exists j, i <= j /\ Tp.pc (Tp.th (st_at Tp.st x j) t) = Tp.Idle.
+Proof. exact Tp_live_proofs.call_returns. Qed.
+Print Assumptions C20_tp_call_returns.
+
+Theorem C20_tp_accepted_eventually_refuted_without_fairness : exists x : Tp_live.texec,
+  Tp_live.is_texec Tp_live_proofs.live_cfg x /\ Tp_proofs.R Tp_live_proofs.live_cfg (st_at Tp.st x 0) /\
+  Tp.chk Tp_live_proofs.live_cfg = true /\ In 5 (Tp.acc (st_at Tp.st x 10)) /\
+  forall j, 10 <= j -> Tp.queue (st_at Tp.st x j) = [5] /\ ~ In 5 (Tp.done (st_at Tp.st x j)) /\ ~ In 5 (Tp.disc (st_at Tp.st x j)).
+Proof. exact Tp_live_proofs.accepted_eventually_refuted_without_fairness. Qed.
+Print Assumptions C20_tp_accepted_eventually_refuted_without_fairness.
+
+(* ---------------- the models have no dead transition (missing direction of trace conformance) ----------------
+   Cover.stw_edge / tp_edge abstract one transition to (source pc, API function, event kind, target pc, guards read).  Every
+   transition of the model - in ANY state - has the edge of a transition taken in a REACHABLE state (witness runs in
+   CC/Cover.v; the first ones are real traces of the implementation), except four edges of iwstw that are artefacts of sharing
+   the loop functions between first visit and re-entry, and those are never taken in a reachable state. *)
+Theorem C20_stw_no_dead_transition : forall c s t ev s', Stw.step c s t ev = Some s' ->
+  ~ In (Cover.stw_edge c s t ev s') Cover.stw_dead_edges ->
+  exists c0 s0 t0 ev0 s0', Stw_proofs.R c0 s0 /\ Stw.step c0 s0 t0 ev0 = Some s0' /\
+                           Cover.stw_edge c0 s0 t0 ev0 s0' = Cover.stw_edge c s t ev s'.
+Proof. exact Cover_proofs.stw_no_dead_transition. Qed.
+Print Assumptions C20_stw_no_dead_transition.
+
+Theorem C20_stw_dead_edges_unreachable : forall c s t ev s', Stw_proofs.R c s -> Stw.step c s t ev = Some s' ->
+  ~ In (Cover.stw_edge c s t ev s') Cover.stw_dead_edges.
+Proof. exact Cover_proofs.stw_dead_edges_unreachable. Qed.
+Print Assumptions C20_stw_dead_edges_unreachable.
+
+Theorem C20_tp_no_dead_transition : forall c s t ev s', Tp.step c s t ev = Some s' ->
+  exists c0 s0 t0 ev0 s0', Tp_proofs.R c0 s0 /\ Tp.step c0 s0 t0 ev0 = Some s0' /\
+                           Cover.tp_edge c0 s0 t0 ev0 s0' = Cover.tp_edge c s t ev s'.
+Proof. exact Cover_proofs.tp_no_dead_transition. Qed.
+Print Assumptions C20_tp_no_dead_transition.
+
+(* ---------------- satisfiability of the new hypotheses ---------------- *)
+(* a fair execution exists (and all other hypotheses of the stw liveness theorems hold for it) *)
+Example C20_ex_stw_fair_exec : exists x : Stw_live.sexec,
+  Stw_live.is_sexec Stw_live_proofs.live_cfg x /\ Stw_live.sfair Stw_live_proofs.live_cfg x /\
+  Stw_proofs.R Stw_live_proofs.live_cfg (st_at Stw.st x 0) /\
+  Stw.recheck Stw_live_proofs.live_cfg = true /\ Stw.selfunlock Stw_live_proofs.live_cfg = true /\
+  (forall i e, lab Stw.st x i = Some (Stw.W, e) -> Stw_live.is_call e = false) /\
+  In 0 (Stw.acc (st_at Stw.st x 6)) /\ In 0 (Stw.done (st_at Stw.st x 11)).
+Proof. exact Stw_live_proofs.fair_exec_example. Qed.
+
+Example C20_ex_tp_fair_exec : exists x : Tp_live.texec,
+  Tp_live.is_texec Tp_live_proofs.live_cfg x /\ Tp_live.tfair Tp_live_proofs.live_cfg x /\
+  Tp_proofs.R Tp_live_proofs.live_cfg (st_at Tp.st x 0) /\ Tp.nthreads Tp_live_proofs.live_cfg > 0 /\
+  Tp.chk Tp_live_proofs.live_cfg = true /\ In 5 (Tp.acc (st_at Tp.st x 10)) /\ In 5 (Tp.done (st_at Tp.st x 40)) /\
+  Tp.pc (Tp.th (st_at Tp.st x 26) 20) = Tp.Start /\ Tp.pc (Tp.th (st_at Tp.st x 40) 20) = Tp.Idle.
+Proof. exact Tp_live_proofs.fair_exec_example. Qed.
+
+(* with the fix the call sequence of the self-shutdown defect is harmless *)
+Example C20_ex_stw_self_shutdown_fixed : exists s,
+  run Stw.st (Stw.step Stw_live_proofs.selfsd_fixed_cfg) Stw.init Stw_live_proofs.selfsd_fixed_trace = Some s /\
+  Stw.owner s = None /\ Stw.acc s = [0; 1] /\ Stw.done s = [0] /\ Stw.queue s = [1] /\ Stw.shut s = false.
+Proof. exact Stw_live_proofs.self_shutdown_fixed_example. Qed.
+
+(* number of distinct transitions on record: iwstw 71 live + 4 dead edges (32 witness runs), iwtp 47 (16 witness runs) *)
+Example C20_ex_edge_counts :
+  (length (Cover.edge_nodup Cover.stw_edges) = 71 /\ length Cover.stw_dead_edges = 4 /\ length Cover.stw_witness = 32) /\
+  (length (Cover.edge_nodup Cover.tp_edges) = 47 /\ length Cover.tp_witness = 16).
+Proof. split; [exact Cover_proofs.stw_edge_count|exact Cover_proofs.tp_edge_count]. Qed.
